@@ -155,16 +155,23 @@ def dump_def(d):
     return out
 
 
+def pathlib_posix(p):
+    try:
+        return p.as_posix()
+    except Exception:
+        return str(p)
+
+
 def dump_parser(parser):
     def cv(v):
         return v if isinstance(v, (int, str)) and not isinstance(v, bool) else repr(v)
     return dict(
         constants=[[k, cv(v.value), type(v.value).__name__, v.src.as_posix()] for k, v in parser.constants.items()],
         string_constants=[[k, v.value] for k, v in parser.string_constants.items()],
-        aliases=[[k, v.type_name, type(v.type_obj).__name__, v.size, v.alignment] for k, v in parser.aliases.items()],
-        host_ids=[[k, v.value] for k, v in parser.host_ids.items()],
-        module_ids=[[k, v.value] for k, v in parser.module_ids.items()],
-        message_ids=[[k, v.value] for k, v in parser.message_ids.items()],
+        aliases=[[k, v.type_name, type(v.type_obj).__name__, v.size, v.alignment, pathlib_posix(v.src)] for k, v in parser.aliases.items()],
+        host_ids=[[k, v.value, v.src.as_posix()] for k, v in parser.host_ids.items()],
+        module_ids=[[k, v.value, v.src.as_posix()] for k, v in parser.module_ids.items()],
+        message_ids=[[k, v.value, v.src.as_posix()] for k, v in parser.message_ids.items()],
         structs=[dump_def(s) for s in parser.struct_defs.values()],
         messages=[dump_def(m) for m in parser.message_defs.values()],
     )
@@ -336,11 +343,16 @@ def run_case(case):
         if "load_c" in ops and res["outputs"].get("c"):
             w = d / "cwork"
             w.mkdir()
-            res["load"]["c"] = load_c(out / OUTS["c"], w, res["model"], core)
+            res["load"]["c"] = load_c(out / OUTS["c"], w, res["model"], core, cc=case.get("cc", "gcc"))
         if "load_js" in ops and res["outputs"].get("javascript"):
             w = d / "jswork"
             w.mkdir()
             res["load"]["js"] = load_js(out / OUTS["javascript"], w)
+        if "core_shipped" in ops:
+            import pyrtma as _pk
+            shipped = Path(_pk.__file__).parent / "core_defs.py"
+            res["load"]["shipped"] = load_python(shipped, env)
+            res["shipped_text"] = shipped.read_text()
         # E. combined-YAML round trip through the real parser (options taken from the file, as the CLI does)
         if "rt" in ops and res["outputs"].get("combined"):
             rt = dict(ok=False, exc=None, msg="", model=None, opts=None)
